@@ -1,6 +1,7 @@
 package streams
 
 import (
+	"k8s.io/apimachinery/pkg/api/resource"
 	"strings"
 	"context"
 	"fmt"
@@ -69,6 +70,7 @@ func normErsStatusTimes(st *canon.ERSStatus, lo, hi, now int64) {
 
 // store is a generated cluster for the replica-set reconcile.
 type ersWorld struct {
+	settingsDirected bool
 	eds      *edsv1.ExtendedDaemonSet
 	ers      []*edsv1.ExtendedDaemonSetReplicaSet
 	nodes    []*corev1.Node
@@ -191,6 +193,31 @@ func genErsWorld(r *rand.Rand, now time.Time) *ersWorld {
 		eds.Status.Canary = cs
 		w.cat = append(w.cat, "canary-running")
 	}
+	// directed class: a VALID setting of this ExtendedDaemonSet selects some nodes that still lack a pod — the
+	// pods created for them must carry the setting's resources whatever else happens in the sync
+	settingsDirected := r.Intn(8) == 0
+	if settingsDirected {
+		s := &edsv1.ExtendedDaemonsetSetting{ObjectMeta: metav1.ObjectMeta{Name: "set-directed", Namespace: testNS, CreationTimestamp: mt(now.Add(-time.Hour))}}
+		s.Spec.Reference = &autoscalingv1.CrossVersionObjectReference{Name: testEDS, Kind: "ExtendedDaemonSet"}
+		s.Spec.NodeSelector = metav1.LabelSelector{MatchLabels: map[string]string{"pool": "big"}}
+		s.Spec.Containers = []edsv1.ExtendedDaemonsetSettingContainerSpec{{Name: "main", Resources: corev1.ResourceRequirements{
+			Limits: corev1.ResourceList{corev1.ResourceCPU: resource.MustParse(pick(r, "2", "3", "750m"))}}}}
+		s.Status.Status = edsv1.ExtendedDaemonsetSettingStatusValid
+		w.settings = append(w.settings, s)
+		for _, n := range w.nodes {
+			if r.Intn(2) == 0 {
+				if n.Labels == nil {
+					n.Labels = map[string]string{}
+				}
+				n.Labels["pool"] = "big"
+			}
+		}
+		w.cat = append(w.cat, "settings", "settings:directed-valid-selecting")
+		w.settingsDirected = true
+		if eds.Spec.Strategy.ReconcileFrequency == nil {
+			eds.Spec.Strategy.ReconcileFrequency = &metav1.Duration{Duration: 10 * time.Second}
+		}
+	}
 	// settings
 	if r.Intn(3) == 0 {
 		for k := 0; k < 1+r.Intn(2); k++ {
@@ -239,6 +266,9 @@ func genErsWorld(r *rand.Rand, now time.Time) *ersWorld {
 	for k := 0; k < nn; k++ {
 		name := fmt.Sprintf("n%d", k)
 		cnt := pick(r, 0, 1, 1, 1, 1, 2)
+		if settingsDirected && r.Intn(2) == 0 {
+			cnt = 0
+		}
 		for j := 0; j < cnt; j++ {
 			owner := pick(r, a, a, b)
 			c := pick(r, catUpToDateAvail, catUpToDateAvail, catUpToDateUnavail, catOutdatedTerminating, catStuckUnscheduled, catUpToDateAvail)
@@ -381,6 +411,15 @@ func streamErsReconcile(r *rand.Rand, i int, tier string) *Case {
 	target := pick(r, w.ers...)
 	freq := 10 * time.Second
 	target.Status.Conditions = genErsConds(r, now, freq)
+	if w.settingsDirected && r.Intn(3) != 0 {
+		// the active replica set, not throttled: the sync reaches the creations
+		for _, e := range w.ers {
+			if e.Name == w.eds.Status.ActiveReplicaSet {
+				target = e
+			}
+		}
+		target.Status.Conditions = nil
+	}
 	if r.Intn(2) == 0 { // stale counters and role from the previous sync
 		// ordered (0 <= available <= ready <= current <= desired), as every completed sync leaves them
 		v := []int{r.Intn(7), r.Intn(7), r.Intn(7), r.Intn(7)}
@@ -451,7 +490,22 @@ func streamErsReconcile(r *rand.Rand, i int, tier string) *Case {
 		neighbourWarmup(r, rec, sw, objs, now)
 		sw.use(cl)
 	}
+	// one case in ten (fault-free otherwise): the k-th List call of this sync fails (settings, nodes,
+	// pods, the old DaemonSet's pods, canary-label clean-up ...).  A failed read must stop the sync or be
+	// harmless; it must never be replaced by "nothing" (e.g. no settings) in a decision that creates pods.
+	readFault := failAt == nil && !warm && !neighbour && (r.Intn(10) == 0 || (len(w.settings) > 0 && r.Intn(3) == 0) || (w.settingsDirected && r.Intn(2) == 0))
+	if readFault {
+		lf := &listFaultClient{Client: cl, failAt: r.Intn(5)}
+		if r.Intn(2) == 0 || w.settingsDirected { // by kind of list rather than by position
+			lf.failKind = pick(r, "ExtendedDaemonsetSettingList", "ExtendedDaemonsetSettingList", "NodeList", "PodList")
+		}
+		sw.use(lf)
+	}
 	in := ersInput(cl, testNS, testEDS, target.Name, aff, rec)
+	if readFault {
+		in["readFault"] = true
+		in["faulted"] = true
+	}
 	statusConflict := failAt != nil && failAt[-2] == "conflict"
 	out, nowC := runErsReconcile(rec, cl, wl, testNS, testEDS, target.Name)
 	in["now"] = nowC
@@ -475,6 +529,9 @@ func streamErsReconcile(r *rand.Rand, i int, tier string) *Case {
 	}
 	if neighbour {
 		cat = append(cat, "neighbour-synced-first")
+	}
+	if readFault {
+		cat = append(cat, "read-fault:list")
 	}
 	if failAt != nil {
 		in["faulted"] = true
